@@ -48,6 +48,10 @@ class CaseTimeout(Exception):
     """ Watchdog: inconclusive, never a violation. """
 
 
+class Abort(BaseException):
+    """ Stop a shard at once (Hypothesis does not shrink BaseExceptions). """
+
+
 def require(cond, label, detail=""):
     if not cond:
         raise Violation(label, detail() if callable(detail) else detail)
@@ -151,7 +155,7 @@ def _run_case(facet, pid, spec, stats, tier, exclusions=True):
             stats["harness_error"] = "more than 4 cases of facet {} hit the "\
                 "watchdog in one shard: size bounds are wrong, or the code "\
                 "under test hangs".format(facet.name)
-            raise HarnessError(stats["harness_error"])
+            raise Abort(stats["harness_error"])
         return
     except Exception as exc:  # noqa
         kind, label = signature(exc)
@@ -195,7 +199,7 @@ def run_shard(args):
                     continue
                 try:
                     _run_case(facet, pid, spec, stats, tier, exclusions)
-                except Exception:  # noqa
+                except (Exception, Abort):  # noqa
                     break
             stats["exhaustive"] = True
         else:
@@ -229,6 +233,8 @@ def _run_hypothesis(facet, pid, stats, tier, seed, shard, exclusions):
 
     try:
         test()
+    except Abort:
+        pass
     except Exception as exc:  # noqa
         if stats["failure"] is None and stats["harness_error"] is None:
             stats["harness_error"] = "".join(traceback.format_exception(
